@@ -89,8 +89,10 @@ GvEncChecks(r) ==
           IN Report("gv-enc-bytes", [expected |-> exp, got |-> r.bytes, devs |-> mins]))
     /\ (r.size = Len(r.bytes) \/ Report("gv-enc-size", [size |-> r.size, written |-> Len(r.bytes)]))
     /\ (r.type_same \/ Report("gv-enc-type", "value_signature differs from the type it was built for"))
-    /\ IF r.dec.outcome # "ok" THEN Report("gv-rt-outcome", r.dec)
-       ELSE /\ ((r.dec.T = r.T /\ Norm(r.T, r.dec.v) = Norm(r.T, r.v)) \/ Report("gv-rt-value", [got |-> r.dec.v, want |-> r.v]))
+    /\ LET \* does the value contain a container whose members are all empty (named deviation)?
+           emptydrop == GVD(r.T, r.v, r.le, {"no_offsets_when_body_empty"}) # GVD(r.T, r.v, r.le, {}) IN
+       IF r.dec.outcome # "ok" THEN Report("gv-rt-outcome", [dec |-> r.dec, emptydrop |-> emptydrop])
+       ELSE /\ ((r.dec.T = r.T /\ Norm(r.T, r.dec.v) = Norm(r.T, r.v)) \/ Report("gv-rt-value", [got |-> r.dec.v, want |-> r.v, emptydrop |-> emptydrop]))
             /\ (r.dec.consumed = Len(r.bytes) \/ Report("gv-rt-consumed", [consumed |-> r.dec.consumed, len |-> Len(r.bytes)]))
 
 LineOk ==
